@@ -88,8 +88,9 @@ func parentMain(fl *evid.Flags, only string) int {
 		"(Unknown 'Prefix can't be empty'), i.e. not as not-found")
 	run.Assume("'dead' answers are: docker State.Status exited|dead, HTTP 404, CRI NotFound, CRI NOTREADY followed by a pod lookup " +
 		"that returns NotFound or a pod without waiting/running container statuses")
-	run.Assume("cleanupVeth runs (netlink.LinkList on the sandbox, which has no v-h* veth) but is not monitored: links cannot be " +
-		"faked without a hook and the property text does not mention them")
+	run.Assume("cleanupVeth runs and is not monitored (links cannot be faked without a hook, the property text does not mention " +
+		"them); when other processes leave v-h* veth links on the host it inspects ids that belong to no population: those are " +
+		"answered with an error (link kept), counted as inspects_*_unscripted, never held and never used to count passes")
 	run.Assume("round counting relies on ioutil.ReadDir returning names sorted, so that the sentinel file of a loop is the last " +
 		"inspect of a pass; a loop blocked in its sentinel inspect cannot change its directories")
 	run.Assume("runtime 'down' outages last a wall-clock window of 70-130 ms (>= 3 GC periods of 20 ms); the number of collector " +
